@@ -37,6 +37,20 @@ static CASE_IDX: AtomicU64 = AtomicU64::new(0);
 static LIMIT_NS: AtomicU64 = AtomicU64::new(0);
 pub const EXIT_SLOW: i32 = 97;
 
+// Stage of the pipeline the work thread is in: part of the SLOW line and written to <out>/cur_<shard>.stage, so
+// that a non-terminating input is keyed by the stage that does not terminate (a parser loop and a loop in
+// the semantic phases are different defects).
+const STAGES: &[&str] = &["idle", "parse", "check_program", "diagnostics", "render", "emit_program"];
+static STAGE: AtomicU64 = AtomicU64::new(0);
+static STAGE_FILE: std::sync::OnceLock<PathBuf> = std::sync::OnceLock::new();
+
+fn set_stage(i: usize) {
+    STAGE.store(i as u64, Ordering::SeqCst);
+    if let Some(p) = STAGE_FILE.get() {
+        let _ = std::fs::write(p, STAGES[i]);
+    }
+}
+
 fn cpu_ns() -> u64 {
     let mut ts = libc::timespec { tv_sec: 0, tv_nsec: 0 };
     unsafe { libc::clock_gettime(libc::CLOCK_PROCESS_CPUTIME_ID, &mut ts) };
@@ -59,10 +73,11 @@ fn start_watchdog() {
                     continue;
                 }
                 println!(
-                    "SLOW idx={} limit_ms={} used_ms={}",
+                    "SLOW idx={} limit_ms={} used_ms={} stage={}",
                     CASE_IDX.load(Ordering::SeqCst),
                     limit / 1_000_000,
-                    used / 1_000_000
+                    used / 1_000_000,
+                    STAGES[STAGE.load(Ordering::SeqCst) as usize]
                 );
                 let _ = std::io::stdout().flush();
                 unsafe { libc::_exit(EXIT_SLOW) };
@@ -179,7 +194,24 @@ pub fn run_pipeline(text: Arc<String>) -> CaseResult {
     let t0 = cpu_ns();
     let program_file = std::env::current_dir().unwrap().join("main.dora");
 
+    // stage 0: the parser alone on the program text (check_program does the same again; this only separates
+    // "the parser does not terminate / panics" from the semantic phases)
+    set_stage(1);
+    {
+        let t = text.clone();
+        if let Err(p) = catch(move || {
+            let (file, errors) = dora_parser::Parser::from_shared_string(t).parse();
+            (file.root().green().text_length(), errors.len())
+        }) {
+            res.bad.push(panic_bad("the parser", p));
+            res.cpu_ms = (cpu_ns() - t0) as f64 / 1e6;
+            set_stage(0);
+            return res;
+        }
+    }
+
     // stage 1: Sema::new + check_program, exactly as dora/src/driver/start.rs::compile_program
+    set_stage(2);
     let r = catch(move || {
         let params = SemaCreationParams::new().set_program_content(text);
         let mut sa = Sema::new(params);
@@ -191,12 +223,14 @@ pub fn run_pipeline(text: Arc<String>) -> CaseResult {
         Err(p) => {
             res.bad.push(panic_bad("check_program", p));
             res.cpu_ms = (cpu_ns() - t0) as f64 / 1e6;
+            set_stage(0);
             return res;
         }
     };
     res.check_ok = ok;
 
     // stage 2: the diagnostics themselves
+    set_stage(3);
     let r = catch(|| {
         let mut local = CaseResult::default();
         let mut pe = 0u64;
@@ -227,6 +261,7 @@ pub fn run_pipeline(text: Arc<String>) -> CaseResult {
     }
 
     // stage 3: the text the CLI prints (line/column computation, source excerpt, underline)
+    set_stage(4);
     let r = catch(|| sa.diag.borrow_mut().dump_to_string(&sa, true));
     match r {
         Ok(s) => res.rendered_bytes = s.len() as u64,
@@ -235,6 +270,7 @@ pub fn run_pipeline(text: Arc<String>) -> CaseResult {
 
     // stage 4: bytecode emission for accepted programs
     if ok && res.bad.is_empty() {
+        set_stage(5);
         match catch(move || emit_program(sa)) {
             Ok(prog) => {
                 res.emitted = true;
@@ -249,6 +285,7 @@ pub fn run_pipeline(text: Arc<String>) -> CaseResult {
         }
     }
     res.cpu_ms = (cpu_ns() - t0) as f64 / 1e6;
+    set_stage(0);
     res
 }
 
@@ -352,6 +389,7 @@ fn run_front(args: &Args) {
     std::fs::create_dir_all(&cwd).unwrap();
     std::env::set_current_dir(&cwd).unwrap();
     let (base, limit_ms) = set_limit(args);
+    let _ = STAGE_FILE.set(args.out.join(format!("cur_{}.stage", args.shard)));
     rep.line(json!({"t": "calib", "base_ms": base, "limit_ms": limit_ms}));
     let mut n = 0u64;
     for idx in args.indices() {
